@@ -25,6 +25,8 @@ handles status depending on statemachine state
 """
 
 
+import threading
+
 from frappy.core import BUSY, IDLE, ERROR, Parameter, Command
 from frappy.lib.statemachine import StateMachine, Finish, Start, Stop, \
     Retry  # pylint: disable=unused-import
@@ -56,6 +58,7 @@ class HasStates:
     all_status_changes = True  # when True, send also updates for status changes within a cycle
     _state_machine = None
     _default_idle_status = IDLE, ''
+    _request_lock = None  # a request (status plus start or stop) is seen as a whole by cycle_machine
     _status = IDLE, ''
     statusMap = None  # cache for status values derived from state methods
 
@@ -78,6 +81,7 @@ class HasStates:
     def initModule(self):
         super().initModule()
         self.statusMap = {}
+        self._request_lock = threading.Lock()
         self.init_state_machine()
 
     def state_transition(self, sm, newstate):
@@ -146,13 +150,14 @@ class HasStates:
             if sm.reset_fast_poll:
                 sm.reset_fast_poll = False
                 self.setFastPoll(False)
-            if sm.next_task is None:
-                # nothing running and nothing requested: the status must be the final one. a stop
-                # request racing with the end of a run (or cancelling a pending start) would
-                # else leave 'stopping' or the busy status of the cancelled start behind
-                final = self.get_status(None)
-                if sm.status != final:
-                    sm.status = final
+            with self._request_lock:
+                if sm.next_task is None:
+                    # nothing running and nothing requested: the status must be the final one. a stop
+                    # request racing with the end of a run (or cancelling a pending start) would
+                    # else leave 'stopping' or the busy status of the cancelled start behind
+                    final = self.get_status(None)
+                    if sm.status != final:
+                        sm.status = final
         self.read_status()
 
     def doPoll(self):
@@ -215,16 +220,17 @@ class HasStates:
         4) the state machine continues at the given statefunc
         """
         sm = self._state_machine
-        if status is None:
-            sm.status = self.get_status(statefunc, BUSY)
-            if sm.statefunc:
-                sm.status = sm.status[0], 'restarting'
-        else:
-            sm.status = status
-        # idle_status: a run finishing with a bare Finish must not report the
-        # 'stopped' or error status left over from an earlier run
-        sm.start(statefunc, cleanup=kwds.pop('cleanup', self.on_cleanup),
-                 idle_status=kwds.pop('idle_status', self._default_idle_status), **kwds)
+        with self._request_lock:
+            if status is None:
+                sm.status = self.get_status(statefunc, BUSY)
+                if sm.statefunc:
+                    sm.status = sm.status[0], 'restarting'
+            else:
+                sm.status = status
+            # idle_status: a run finishing with a bare Finish must not report the
+            # 'stopped' or error status left over from an earlier run
+            sm.start(statefunc, cleanup=kwds.pop('cleanup', self.on_cleanup),
+                     idle_status=kwds.pop('idle_status', self._default_idle_status), **kwds)
         self.read_status()
         if fast_poll:
             sm.reset_fast_poll = True
@@ -244,9 +250,10 @@ class HasStates:
         """
         sm = self._state_machine
         if sm.is_active:
-            sm.idle_status = stopped_status
-            sm.stop()
-            sm.status = self.get_status(sm.statefunc, sm.status[0])[0], 'stopping'
+            with self._request_lock:
+                sm.idle_status = stopped_status
+                sm.stop()
+                sm.status = self.get_status(sm.statefunc, sm.status[0])[0], 'stopping'
             self.read_status()
             self.pollInfo.trigger(True)  # trigger poller
 
